@@ -472,6 +472,8 @@ def circ_worker(job):
         if not circ_backbone(out, desc, pool, tx_id, d, gs, kw, canon, idmap, exc):
             return out
         out['lines'] = lines
+        out['idmap'] = dict(idmap)
+        out['circ_id'] = pool[tx_id].circ_rna[0].id
         out['real'] = sorted(run.fasta.keys())
         out['headers'] = {s: h for s, h in run.fasta.items()}
         out['stats']['runs'] = 1
